@@ -626,7 +626,7 @@ def dyadic_program(lines):
     return True
 
 
-def same(model, impl, strict=True):
+def same(model, impl, strict=True, scale=0.0):
     """compare one model line with one implementation line.  If every coefficient the (exact) model
     prints is a double, floating point was exact on this line and the two must agree exactly (up to
     the printing of -0/0); otherwise rounding happened in the implementation and the comparison is
@@ -650,7 +650,8 @@ def same(model, impl, strict=True):
     (a, ra), (b, rb) = parse(model), parse(impl)
     if not a and not b: return norm(model) == norm(impl)
     if ra != rb: return norm(model) == norm(impl)
-    big = max([abs(x) for x in list(a.values()) + list(b.values())] + [1e-300])
+    # residues of cancellations are relative to the magnitudes the program has handled so far, not to this line
+    big = max([abs(x) for x in list(a.values()) + list(b.values())] + [1e-300, scale])
     for k in set(a) | set(b):
         x, y = a.get(k, 0.0), b.get(k, 0.0)
         if abs(x - y) > 1e-9 * big: return False
@@ -684,11 +685,21 @@ def run_programs(progs):
     # once the exact model has produced a coefficient that is not a double, the implementation has rounded:
     # from there on this program is compared with tolerance (later coefficients may be doubles again without
     # the float computation having been exact)
-    tainted = set(); bad = []
+    tainted = set(); bad = []; scale = {}
+    def pow2(fr):
+        fr = abs(fr)
+        return fr != 0 and (fr.numerator & (fr.numerator - 1)) == 0 and (fr.denominator & (fr.denominator - 1)) == 0
+    # `remainder / weight` in add_point divides by function weights: exact only for powers of two.  Weights are
+    # sums/products of literals (8*f - f = 7*f), so the model's `dec={...}` dumps are scanned first.
+    for i in range(n):
+        m = re.search(r"dec=\{([^}]*)\}", out[i])
+        if m and any(not pow2(Fr(v)) for _, v in _PAIR.findall("{" + m.group(1) + "}")): tainted.add(idx[i])
     for i in range(n):
         sd = idx[i]
-        if not same(out[i], exp[i], strict.get(sd, False) and sd not in tainted): bad.append(i)
-        if sd not in tainted and any(not _exact_double(Fr(v)) for _, v in _PAIR.findall(out[i])): tainted.add(sd)
+        if not same(out[i], exp[i], strict.get(sd, False) and sd not in tainted, scale.get(sd, 0.0)): bad.append(i)
+        coefs = [Fr(v) for _, v in _PAIR.findall(out[i])]
+        if coefs: scale[sd] = max(scale.get(sd, 0.0), max(abs(float(c)) for c in coefs if abs(c) < 10 ** 300))
+        if sd not in tainted and any(not _exact_double(c) for c in coefs): tainted.add(sd)
     if len(out) != len(exp):
         bad.append(n - 1 if n else 0)
     exact = sum(1 for i in range(n) if out[i] == exp[i])
